@@ -19,11 +19,11 @@ func init() {
 	core.Register(&core.Prop{
 		ID:    "C13",
 		Level: "fault_enumeration",
-		Rule: "differential against crypto/ecdsa on P-224/256/384/521: (r,s) from the product of classes {valid, 0, 1, -1, -valid, N-1, N, N+1, N+valid, 2^bits-1, 2^bits, seeded} for r and s plus (r, N-s), constructed signatures with N <= R.x < P (r = R.x - N, public key solved for), digests of length 0..128; ASN.1: valid encodings, non-minimal/negative/empty integers, long-form, non-minimal and indefinite lengths, wrong tags, trailing bytes inside and after the SEQUENCE, every truncation, every single-bit flip of one valid DER per curve, seeded strings behind 30 xx 02. " +
+		Rule: "differential against crypto/ecdsa on P-224/256/384/521: (r,s) from the product of classes {valid, 0, 1, -1, -valid, N-1, N, N+1, N+valid, 2^bits-1, 2^bits, seeded} for r and s plus (r, N-s), constructed signatures with N <= R.x < P (r = R.x - N, public key solved for), digests of length 0..128 and digests whose integer value is not below the order (all ones at order length and longer, N, N+1, 2N-1, zero), signed by crypto/ecdsa; ASN.1: valid encodings, non-minimal/negative/empty integers, long-form, non-minimal and indefinite lengths, wrong tags, trailing bytes inside and after the SEQUENCE, every truncation, every single-bit flip of one valid DER per curve, seeded strings behind 30 xx 02. " +
 			"Producers: every fork signature (Sign, SignASN1, PrivateKey.Sign, BlindKeySign) verifies under crypto/ecdsa and every crypto/ecdsa signature verifies here. " +
 			"Fault enumeration: GenerateKey and every signing entry point under a scripted entropy reader that delivers f bytes in a given chunking (all at once, byte by byte, seeded splits, interleaved zero-length reads) and then fails permanently, f = 0..need+1 exhaustively (need measured on a never-failing reader): a nil error implies the reader never failed and at least the needed bytes were consumed; a failed reader implies a non-nil error and nil key / r,s / signature. " +
 			"distinct_nontrivial = distinct (curve, case class, r class, s class | DER class | entry point, fault position, chunking) keys",
-		Floors:      []string{"tiny_curve_cofactor_4_agrees", "one_octet_signatures_accepted_by_std", "keys_on_generic_curve_objects", "verify_agree_accept", "verify_agree_reject", "asn1_agree_accept", "asn1_agree_reject", "fork_signature_verifies_under_std", "std_signature_verifies_under_fork", "fault_error_returned", "fault_success_full_entropy", "s_plus_N_class", "asn1_bitflips", "wrapped_r_signatures", "history_verify_agrees", "constructed_doubling_case_accepted_by_std", "special_public_keys_accepted_by_std", "bulk_signatures_verified"},
+		Floors:      []string{"digests_not_below_the_order", "tiny_curve_cofactor_4_agrees", "one_octet_signatures_accepted_by_std", "keys_on_generic_curve_objects", "verify_agree_accept", "verify_agree_reject", "asn1_agree_accept", "asn1_agree_reject", "fork_signature_verifies_under_std", "std_signature_verifies_under_fork", "fault_error_returned", "fault_success_full_entropy", "s_plus_N_class", "asn1_bitflips", "wrapped_r_signatures", "history_verify_agrees", "constructed_doubling_case_accepted_by_std", "special_public_keys_accepted_by_std", "bulk_signatures_verified"},
 		Assumptions: []string{"crypto/ecdsa of the Go toolchain that builds the harness is the reference", "entropy failures are permanent and a failing Read delivers no bytes"},
 		Run:         runC13,
 	})
